@@ -6,6 +6,7 @@ import SaModel.Lemmas.C08ZooE
 import SaModel.Lemmas.C08Explore
 import SaModel.Lemmas.C08Loop
 import SaModel.Lemmas.C08NotWalkable
+import SaModel.Lemmas.C08Agree
 /-
 C08 — tracing yields the documented mapping; from_type and from_samples agree.
 Model: SaModel/Trace/{Tracer,FromSamples,FromType}.lean.  Documented mapping: SaModel/Trace/Mapping.lean (`Spec.mapping`,
@@ -398,6 +399,30 @@ example :
     let ty : Ty := .struct "S" (.cons "deep" tDeep .nil)
     walkable o "$" ty = true ∧ passes ty = 10 ∧ (fromType .fixed o ty).isOk = true ∧
     (fromType .fixed { o with from_type_budget := 9 } ty).isOk = false := by decide +kernel
+
+/-! ### `from_samples` on covering samples = `from_type` -/
+
+/-- `C08_agree_partial`: for every ENUM-FREE type description with unique field names that can be walked, and all
+options with a budget of at least the one pass such a type needs: `from_samples` on the covering samples of the type
+(`covering`, SaModel/Trace/FromType.lean: `Some`, one element per collection, one entry per map) gives exactly what
+`from_type` gives — the same fields or the same error (null-only field, overwrite errors, root not a struct).
+Needed hypotheses: unique names (`from_samples` finds a field by name, a derive by position); walkable (under
+`map_as_struct` `from_type` refuses maps while `from_samples` traces them as structs — there the two tracers differ, as
+documented).
+Missing for the general `C08_agree`: types with enums (several covering samples: the invariant of `absorbAll` over the
+`width ty` samples, variant by variant); checked on the zoo below and on the real crate by the `tracety` suite. -/
+theorem C08_agree_partial (c : Code) (o : Options) (ty : Ty) (hf : enumFree ty = true) (hu : uniqueNames ty = true)
+    (hw : walkable o "$" ty = true) (hb : 1 ≤ o.from_type_budget) :
+    fromSamples c o (covering ty) = fromType c o ty :=
+  agree_enumFree c o ty hf hu hw hb
+
+/-- non-vacuity: a struct with every enum-free container kind; both tracers succeed on it -/
+example :
+    let o : Options := { map_as_struct := false }
+    let ty : Ty := .struct "S" (.cons "a" (.option (.vec .string)) (.cons "t" (.tuple (.cons (.int .u8) (.cons .bool .nil)))
+      (.cons "m" (.map .string (.struct "I" (.cons "x" .f32 .nil))) (.cons "n" (.newtypeStruct "N" (.int .i64)) .nil))))
+    enumFree ty = true ∧ uniqueNames ty = true ∧ walkable o "$" ty = true ∧ (fromType .fixed o ty).isOk = true := by
+  decide +kernel
 
 /-! ### the zoo: `from_type` = documented mapping = `from_samples` on covering samples (kernel evaluation) -/
 
